@@ -48,7 +48,7 @@ META = {
                     'proximal_gradient with a callable, iteration-dependent relaxation lam(k)',
                     'landweber with omega=None (power-method estimate of the operator norm)',
                     'accelerated_proximal_gradient, adam, douglas_rachford_pd, forward_backward_pd: loop-carried private state, no resumption API',
-                    'adupdates with array / element-valued inner step sizes (np.asarray views of elements are not modelled: seed C11-D is missed)'],
+                    'adupdates with list-valued inner step sizes (element-valued ones are under contract through the np.asarray view model tlib.NdVal)'],
 }
 
 ADMM = 'odl.solvers.nonsmooth.admm:'
@@ -171,7 +171,8 @@ def unit_pair(P, mode, with_cb, cfg=None):
                 fn = I.get_func(P.funcs[0 if ver == 'opt' else 1])
                 try:
                     r = run_with_loop(I, st, fr, fn, args, kw, mode, havoc=havoc, ghost=gh,
-                                      declared=lambda loc, o=o, ver=ver: P.declared(loc, o, ver), extra_roots=list(o.values()))
+                                      declared=lambda loc, o=o, ver=ver: P.declared(loc, o, ver), extra_roots=list(o.values()),
+                                      readonly=[e for _, e, _ in P.extra_frame(w)] if hasattr(P, 'extra_frame') else ())
                 except ip.PyRaise as e:
                     return ('raise', (ver, e.exc))
                 out[ver] = dict(run=r, o=o, init=init, ghost=gh, final={l: content(e) for l, e in o.items()})
@@ -775,7 +776,7 @@ def unit_monitor(kind, cfg, n_inst, seed):
 
 MONITORS = [('admm_linearized', {}), ('doubleprox_dc', {}),
             ('adupdates', dict(m=2, shared_range=False, random=False)), ('adupdates', dict(m=2, shared_range=True, random=True)),
-            ('adupdates', dict(m=3, shared_range=False, random=True, callback_loop='inner')),
+            ('adupdates', dict(m=3, shared_range=False, random=True, callback_loop='inner')), ('adupdates', dict(m=2, shared_range=False, random=False, inner='elem')),
             ('landweber', dict(projection=False)), ('landweber', dict(projection=True)),
             ('kaczmarz', dict(m=3, omega='list', shared_range=False, projection=False)), ('kaczmarz', dict(m=2, omega='scalar', shared_range=True, projection=True, callback_loop='inner')),
             ('proximal_gradient', dict(lam='default')), ('proximal_gradient', dict(lam='scalar')),
@@ -795,6 +796,8 @@ def units(tier, seed):
                         loops = ('outer', 'inner') if cb else ('outer',)
                         for cl in loops:
                             us.append(unit_pair(PAIRS[2], mode, cb, dict(m=m, shared_range=shared, random=rnd, callback_loop=cl)))
+                            if not cb and not rnd:
+                                us.append(unit_pair(PAIRS[2], mode, cb, dict(m=m, shared_range=shared, random=rnd, callback_loop=cl, inner='elem')))
             for R, cfgs in RESUMES:
                 for cfg in cfgs:
                     if not cb and cfg.get('callback_loop') == 'inner':
